@@ -14,7 +14,9 @@ def _c11_case(c):
         return v
     nxt()                        # cfg bits
     preserve = nxt() == "1"
-    nxt(); nxt()                 # wd, cwd (fixed by the harness)
+    wdx = unhex(nxt())
+    physx = unhex(nxt())
+    nxt()                        # cwd (fixed by the harness)
     prep = []
     for _ in range(int(nxt())):
         k = nxt()
@@ -62,7 +64,20 @@ def _c11_case(c):
             pushes.append({"kind": "U", "title": title, "entries": es})
             if how:
                 pushes[-1]["fail"] = how
-    return {"prep": prep, "pushes": pushes, "preserve": preserve}
+    wdv = ""
+    if wdx.endswith("/via/wd"):
+        wdv = "via"
+        prep = [p for p in prep if not p["path"].endswith("/via")]
+    elif physx.endswith("/wdreal"):
+        wdv = "link"
+        prep = [dict(p, path=p["path"].replace("/wdreal", "/wd", 1)) for p in prep
+                if not (p["kind"] == "l" and p["path"].endswith("/s3/wd"))]
+    elif not any(p["path"] == physx for p in prep):
+        wdv = "missing"
+    rep = {"prep": prep, "pushes": pushes, "preserve": preserve}
+    if wdv:
+        rep["wd"] = wdv
+    return rep
 
 
 # ---------- in-Coq re-evaluation of a sample (cross-checks extraction + OCaml driver) ----------
@@ -97,6 +112,7 @@ def _c11_vm_goal(case, out):
     g = "(mkCfg %s)" % " ".join("true" if c == "1" else "false" for c in bits)
     pres = "true" if nxt() == "1" else "false"
     wd = _vm_path(unhex(nxt()))
+    physwd = _vm_path(unhex(nxt()))
     cwd = _vm_path(unhex(nxt()))
     ents, cont, ino, files = [], [], 0, {}
     for _ in range(int(nxt())):
@@ -168,7 +184,7 @@ def _c11_vm_goal(case, out):
         else:
             views.append("VSym %s" % _vm_hexstr(v[1:]))
     return ("let r := pushes %s %s %s %s (mkStore %s [] []) %s in\n  (snd r, map (vw %s (st_fs (fst r))) %s, length (ents (st_fs (fst r))))\n  = (%s, %s, %d)"
-            % (g, pres, wd, cwd, fs, _vm_list(ops, "pushop"), wd, _vm_list(paths, "path"), oks, _vm_list(views, "view"), len(paths)))
+            % (g, pres, wd, cwd, fs, _vm_list(ops, "pushop"), physwd, _vm_list(paths, "path"), oks, _vm_list(views, "view"), len(paths)))
 
 
 def _c11_vm_sample(d, tier, coq, build):
